@@ -107,6 +107,19 @@ func getAliasDependency(charts []*chart.Chart, dep *chart.Dependency) *chart.Cha
 		out := *c
 		md := *c.Metadata
 		out.Metadata = &md
+		// every copy gets its own Dependency records: they are renamed and flagged in place
+		// later, which must not leak into other uses (aliases) of the same chart
+		if c.Metadata.Dependencies != nil {
+			md.Dependencies = make([]*chart.Dependency, 0, len(c.Metadata.Dependencies))
+			for _, d := range c.Metadata.Dependencies {
+				if d == nil {
+					md.Dependencies = append(md.Dependencies, nil)
+					continue
+				}
+				dd := *d
+				md.Dependencies = append(md.Dependencies, &dd)
+			}
+		}
 
 		if dep.Alias != "" {
 			md.Name = dep.Alias
